@@ -244,8 +244,33 @@ def cases(seed, quick, pairwise):
                     if mm != m and m == "G3":
                         continue
                     out.append(dict(kind=kind, model=mm, seed=s, kwargs=kw, run_kwargs=rkw, resume="none", invalid=invalid, label=f"{kind}:{label}"))
+    out += population_product(seed, quick)
     if pairwise:
         out += pairwise_cases(seed)
+    return out
+
+
+def population_product(seed, quick):
+    """Deviation 3+ on the options that steer one mechanism (how the latent contour is drawn, when
+    the flow is retrained, how the pool is sized): their full product - quick: the sub-lattice
+    where the radius varies between populations of one flow, several seeds; thorough: everything."""
+    import itertools
+
+    out = []
+    if quick:
+        grid = [dict(latent_prior=lp, constant_volume_mode=False, train_on_empty=False) for lp in ("uniform_nsphere", "uniform_nball", "truncated_gaussian")]
+        seeds = (seed, seed + 1, seed + 2, seed + 3)
+    else:
+        grid = []
+        for lp, cvm, toe, acc, ups in itertools.product(("truncated_gaussian", "gaussian", "uniform", "uniform_nsphere", "uniform_nball", "flow"), (True, False), (True, False), (False, True), (True, False)):
+            if cvm and lp in ("gaussian", "uniform", "flow"):
+                continue  # constant-volume mode is defined for the radially truncated priors only
+            grid.append(dict(latent_prior=lp, constant_volume_mode=cvm, train_on_empty=toe, accumulate_weights=acc, update_poolsize=ups))
+        seeds = tuple(seed + i for i in range(6))
+    for kw in grid:
+        for s_ in seeds:
+            label = "std:population-product:" + ",".join(f"{k}={v}" for k, v in kw.items())
+            out.append(dict(kind="std", model="G2", seed=s_, kwargs=dict(kw), run_kwargs={}, resume="none", invalid=False, label=label))
     return out
 
 
@@ -406,7 +431,7 @@ def run(ctx):
         ctx.violation(f"{res['status']}@{label}", f"{res['status']}: {res['detail']} (model {cfg['model']}, seed {cfg['seed']})", {"cfg": {k: v for k, v in cfg.items() if k != 'kwargs' or True}})
     ctx.set("outcomes", stats)
     ctx.set("distinct_nontrivial", len({c["label"] for c in cs}))
-    ctx.set("rule", "every value of every option of the alphabet on its own (deviation 1) for both samplers on G2 (quick) / G2 and G3 with two seeds (thorough), plus every pair of valid values of two different options (thorough). Each run is classified: rejected before the first live point is drawn / completed and passing the C05 oracle / failing during sampling / failing after sampling / population loop exceeding 1000x its nominal number of latent draws / wall clock (120 s in the parallel sweep; a run stopped by it is repeated with few neighbours and a 900 s bound, and only that outcome counts). Distinct/non-trivial: distinct option assignments")
+    ctx.set("rule", "every value of every option of the alphabet on its own (deviation 1) for both samplers on G2 (quick) / G2 and G3 with two seeds (thorough), plus every pair of valid values of two different options (thorough), plus the product of the options that steer the latent contour / retraining / pool size over several seeds (quick: the sub-lattice where the radius varies between populations of one flow). Each run is classified: rejected before the first live point is drawn / completed and passing the C05 oracle / failing during sampling / failing after sampling / population loop exceeding 1000x its nominal number of latent draws / wall clock (120 s in the parallel sweep; a run stopped by it is repeated with few neighbours and a 900 s bound, and only that outcome counts). Distinct/non-trivial: distinct option assignments")
     ctx.set("exhaustive", True)
     ctx.sample({"case": cs[3]["label"], "kwargs": str(cs[3]["kwargs"])})
     ctx.assume(
